@@ -27,7 +27,7 @@ EXTENDS Naturals, Sequences, FiniteSets, TLC, Json
 
 CONSTANTS MaxSteps, MaxVer, Plans
 
-KA == 1  KA2 == 2  KB == 3
+KA == 1  KA2 == 2  KB == 3  KB2 == 4
 Names == {"a1", "a2", "b1"}
 MatchA == {"a1", "a2"}            \* paths a*
 MatchB == {"a2"}                  \* paths a2* (and below A: a*)
@@ -51,7 +51,8 @@ VARIABLES
 vars == <<pub, st, rk, last, n, hist, plan>>
 view == <<pub, st, rk, last, n, plan>>
 
-Kinds == {"create", "owneradd", "owneraddstaged", "update", "incorporate", "delegadd", "addkey", "removekey", "removerole"}
+Kinds == {"create", "owneradd", "owneraddstaged", "update", "incorporate", "delegadd", "addkey", "removekey", "removerole",
+          "haddkey", "hremovekey", "hremoverole"}
 Can(kind) == n < MaxSteps /\ (plan = <<>> \/ (n < Len(plan) /\ plan[n + 1] = kind))
 
 Init ==
@@ -77,6 +78,7 @@ View(p) == [ver |-> p.ver, A |-> IF p.A.on THEN [ver |-> p.A.ver, names |-> p.A.
 Step(cmd, ok, err, p, s) ==
   LET nrk == \/ rk
              \/ (pub.dA.on /\ p.dA.on /\ ~(pub.dA.keys \subseteq p.dA.keys))
+             \/ (DB(pub).on /\ DB(p).on /\ ~(DB(pub).keys \subseteq DB(p).keys))
              \/ (cmd.act = "owneradd" /\ ok /\ Cardinality(p.A.signers \cap p.dA.keys) < p.dA.thr)
   IN
   /\ last' = [act |-> cmd.act, ok |-> ok, err |-> err]
@@ -99,8 +101,10 @@ CreateRole(r, K, v) ==
 \* owner: add-role --sign-all -- targets.json delegates paths a* to A with the keys of the staged
 \* file's own table; A.json is published as it is; everything is signed and written
 OwnerAddRole(thr) ==
-  /\ Can("owneradd") /\ st.A.on /\ ~pub.dA.on
-  /\ LET f == st.A
+  /\ Can("owneradd") /\ ~pub.dA.on
+  /\ IF ~st.A.on THEN Step([act |-> "owneradd", thr |-> thr], FALSE, IF Loads(pub) THEN "Transport" ELSE "RepoLoad", pub, st)
+     ELSE
+     LET f == st.A
          c == [act |-> "owneradd", thr |-> thr]
          p == [pub EXCEPT !.ver = Bump(pub.ver), !.dA = Del(f.table, thr), !.A = [f EXCEPT !.bfile = NoFile],
                           !.B = IF f.sub.on /\ f.bfile.on THEN f.bfile ELSE NoFile]
@@ -112,8 +116,12 @@ OwnerAddRole(thr) ==
 \* holder: update-delegated-targets -- loads the published repository, adds targets to role r,
 \* sets the version, signs with the offered keys that r's parent lists (threshold required)
 UpdateTargets(r, K, add, v) ==
-  /\ Can("update") /\ pub[r].on
-  /\ LET d   == IF r = "A" THEN pub.dA ELSE DB(pub)
+  /\ Can("update")
+  /\ IF ~pub[r].on
+     THEN Step([act |-> "update", role |-> r, keys |-> K, add |-> add, ver |-> v], FALSE,
+               IF Loads(pub) THEN "NoSuchRole" ELSE "RepoLoad", pub, st)
+     ELSE
+     LET d   == IF r = "A" THEN pub.dA ELSE DB(pub)
          sg  == K \cap d.keys
          c   == [act |-> "update", role |-> r, keys |-> K, add |-> add, ver |-> v]
          f   == File(v, pub[r].names \cup add, sg, pub[r].table, pub[r].sub, NoFile)
@@ -124,8 +132,12 @@ UpdateTargets(r, K, add, v) ==
 \* holder of A: add-role --delegated-role B -- A.json gets a delegation of a2* to B with the keys of
 \* B's staged table, a new version, A's signature; A.json and B.json land in A's staging directory
 DelegAddRole(K, thr, v) ==
-  /\ Can("delegadd") /\ pub.A.on /\ st.B.on /\ ~DB(pub).on
-  /\ LET sg == K \cap pub.dA.keys
+  /\ Can("delegadd") /\ ~DB(pub).on
+  /\ IF ~pub.A.on \/ ~st.B.on
+     THEN Step([act |-> "delegadd", keys |-> K, thr |-> thr, ver |-> v], FALSE,
+               IF ~Loads(pub) THEN "RepoLoad" ELSE IF ~pub.A.on THEN "NoSuchRole" ELSE "Transport", pub, st)
+     ELSE
+     LET sg == K \cap pub.dA.keys
          c  == [act |-> "delegadd", keys |-> K, thr |-> thr, ver |-> v]
          f  == File(v, pub.A.names, sg, pub.A.table \cup st.B.table, Del(st.B.table, thr), [st.B EXCEPT !.bfile = NoFile])
      IN IF ~Loads(pub) THEN Step(c, FALSE, "RepoLoad", pub, st)
@@ -147,13 +159,32 @@ OwnerAddRoleStaged(thr, v) ==
 \* owner: add-key / remove-key / remove on the delegation of A -- a new targets.json in the owner's
 \* staging directory (nothing is checked about thresholds)
 OwnerKeyOp(op, k, v) ==
-  /\ Can(op) /\ pub.dA.on
-  /\ LET d == CASE op = "addkey"    -> Del(pub.dA.keys \cup {k}, pub.dA.thr)
+  /\ Can(op)
+  /\ LET d == CASE ~pub.dA.on       -> NoDel       \* no such delegation: the commands change nothing and say nothing
+                [] op = "addkey"    -> Del(pub.dA.keys \cup {k}, pub.dA.thr)
                 [] op = "removekey" -> Del(pub.dA.keys \ {k}, pub.dA.thr)
                 [] OTHER            -> NoDel
          c == [act |-> op, key |-> k, ver |-> v]
      IN IF ~Loads(pub) THEN Step(c, FALSE, "RepoLoad", pub, st)
         ELSE Step(c, TRUE, "", pub, [st EXCEPT !.T = [on |-> TRUE, ver |-> v, dA |-> d, afile |-> NoFile]])
+
+\* holder of A: add-key / remove-key / remove on A's delegation of B -- a new A.json (signed by A's keys) in A's
+\* staging directory; published later by `update --role A`, which carries B's file over unverified
+HolderKeyOp(op, k, K, v) ==
+  /\ Can(op)
+  /\ IF ~pub.A.on
+     THEN Step([act |-> op, key |-> k, keys |-> K, ver |-> v], FALSE, IF Loads(pub) THEN "NoSuchRole" ELSE "RepoLoad", pub, st)
+     ELSE
+     LET sg  == K \cap pub.dA.keys
+         sub == CASE ~DB(pub).on       -> NoSub      \* no such delegation: nothing changes but version and signature
+                  [] op = "haddkey"    -> Del(DB(pub).keys \cup {k}, DB(pub).thr)
+                  [] op = "hremovekey" -> Del(DB(pub).keys \ {k}, DB(pub).thr)
+                  [] OTHER             -> NoSub
+         tb  == IF op = "haddkey" THEN pub.A.table \cup {k} ELSE pub.A.table
+         c   == [act |-> op, key |-> k, keys |-> K, ver |-> v]
+     IN IF ~Loads(pub) THEN Step(c, FALSE, "RepoLoad", pub, st)
+        ELSE IF Cardinality(sg) < pub.dA.thr THEN Step(c, FALSE, "SigningKeysNotFound", pub, st)
+        ELSE Step(c, TRUE, "", pub, [st EXCEPT !.A = File(v, pub.A.names, sg, tb, sub, NoFile)])
 
 \* owner: update --role r --incoming-metadata <staging dir of r>
 \* (RepositoryEditor::update_delegated_targets, then sign and write)
@@ -209,6 +240,9 @@ Next ==
   \/ \E K \in {{KA}, {KA, KA2}}, thr \in 1..2 : DelegAddRole(K, thr, IF CurVer("A") < MaxVer THEN CurVer("A") + 1 ELSE MaxVer)
   \/ \E v \in {pub.ver.tg, pub.ver.tg + 1} : OwnerKeyOp("addkey", KA2, v) \/ OwnerKeyOp("removerole", 0, v)
                                               \/ \E k \in {KA, KA2} : OwnerKeyOp("removekey", k, v)
+  \/ \E K \in {{KA}, {KA, KA2}}, v \in VerChoices(CurVer("A")) :
+        HolderKeyOp("haddkey", KB2, K, v) \/ HolderKeyOp("hremoverole", 0, K, v)
+        \/ \E k \in {KB, KB2} : HolderKeyOp("hremovekey", k, K, v)
   \/ \E r \in {"A", "B", "T"} : Incorporate(r)
 Spec == Init /\ [][Next]_vars
 
@@ -232,6 +266,6 @@ PathsHold == (pub.A.on => pub.A.names \subseteq MatchA) /\ (pub.B.on => pub.B.na
 RoleVersionsMonotone ==
   [][\A r \in {"A", "B"} : pub[r].on /\ pub'[r].on => pub'[r].ver >= pub[r].ver]_vars
 
-Done == n = MaxSteps
+Done == n = MaxSteps \/ (plan # <<>> /\ n = Len(plan))
 Emit == Done => PrintT(<<"REPLAY", ToJson([steps |-> hist])>>)
 =============================================================================
